@@ -178,7 +178,7 @@ func Items(quick bool) []Item {
 		for _, it := range out {
 			have[it.ID] = true
 		}
-		for i := len(nf.Defs) - 4; i < len(nf.Defs); i++ {
+		for i := len(nf.Defs) - 6; i < len(nf.Defs); i++ {
 			if id := fmt.Sprintf("names%05d", i); i >= 0 && !have[id] && supported(nf.Defs[i]) {
 				out = append(out, Item{Family: "names", Def: nf.Defs[i], Alphabet: nf.Alphabet, MaxLen: 4, ID: id})
 			}
